@@ -1033,3 +1033,157 @@ Theorem handler_frame_names h args :
 Proof.
   eapply post_weaken; [apply bind_payload_names|]. intros fr H. simpl in H. rewrite app_nil_r in H. exact H.
 Qed.
+
+(* ====================================================================== *)
+(* 6. C10 item 5: for ... range                                            *)
+(* ====================================================================== *)
+
+(* --- 6.1 the range is evaluated once, at loop entry --- *)
+(* [exec_stmt_for] above: a for statement is  tick; for_init; exec_for; pop.
+   Only [for_init] contains the range expressions; [exec_for] receives the
+   ranger state (three numbers / the array cell / the string / the key
+   snapshot) and never sees an expression again. *)
+
+Lemma for_init_step_unfold f P e1 var vt start stop step :
+  for_init f P e1 var vt (RStep start stop step) =
+  (let* a := range_num f P e1 start 0%float in
+   let* b := range_num f P e1 (Some stop) 0%float in
+   let* c := range_num f P e1 step 1%float in
+   if PrimFloat.eqb c 0 then fail (EPanic PkRangeValue)
+   else let* e2 := bind_loopvar var (alloc (HNum 0%float)) e1 in ret (RgStep a b c, e2)).
+Proof. reflexivity. Qed.
+
+(* a zero step panics before any iteration: the result state is the state
+   right after the three range expressions were evaluated *)
+Theorem for_zero_step_panics f P e var vt start stop step body st st0 a st1 b st2 c st3 :
+  tick st = (Ok tt, st0) ->
+  range_num f P ([] :: e) start 0%float st0 = (Ok a, st1) ->
+  range_num f P ([] :: e) (Some stop) 0%float st1 = (Ok b, st2) ->
+  range_num f P ([] :: e) step 1%float st2 = (Ok c, st3) ->
+  PrimFloat.eqb c 0 = true ->
+  exec_stmt (S f) P e (SFor var vt (RStep start stop step) body) st = (Er (EPanic PkRangeValue), st3).
+Proof.
+  intros T A B C Z. rewrite exec_stmt_for, (bindM_ok _ _ _ _ _ T). apply bindM_er.
+  rewrite for_init_step_unfold, (bindM_ok _ _ _ _ _ A), (bindM_ok _ _ _ _ _ B), (bindM_ok _ _ _ _ _ C), Z.
+  reflexivity.
+Qed.
+
+(* with a non-zero step the loop runs from the ranger (a, b, c) *)
+Theorem for_step_enters_loop f P e var vt start stop step body st st0 a st1 b st2 c st3 :
+  tick st = (Ok tt, st0) ->
+  range_num f P ([] :: e) start 0%float st0 = (Ok a, st1) ->
+  range_num f P ([] :: e) (Some stop) 0%float st1 = (Ok b, st2) ->
+  range_num f P ([] :: e) step 1%float st2 = (Ok c, st3) ->
+  PrimFloat.eqb c 0 = false ->
+  exec_stmt (S f) P e (SFor var vt (RStep start stop step) body) st =
+  (let* e2 := bind_loopvar var (alloc (HNum 0%float)) ([] :: e) in
+   let* (sig, e3) := exec_for f P e2 (loopvar_name var) (RgStep a b c) body in
+   ret (sig, tl e3)) st3.
+Proof.
+  intros T A B C Z. rewrite exec_stmt_for, (bindM_ok _ _ _ _ _ T).
+  rewrite for_init_step_unfold. unfold bindM at 1 2 3 4. rewrite A. unfold bindM at 1. rewrite B.
+  unfold bindM at 1. rewrite C, Z. unfold bindM, ret.
+  destruct (bind_loopvar var (alloc (HNum 0)) ([] :: e) st3) as [[e2|x] st4]; reflexivity.
+Qed.
+
+(* --- 6.2 instrumented iteration: the trace of ranger.next() results --- *)
+Inductive for_end := FeDone | FeBreak | FeReturn (v : option loc).
+
+Definition for_end_signal (en : for_end) : signal :=
+  match en with FeReturn v => SigReturn v | _ => SigNone end.
+
+Record visit := {
+  v_rg : ranger;      (* ranger state before next() *)
+  v_st : state;       (* program state when next() was called *)
+  v_loc : loc;        (* the cell next() bound the loop variable to *)
+  v_st1 : state;      (* program state when next() returned *)
+  v_env : env         (* environment the body ran in *)
+}.
+
+Definition visit_val (v : visit) : option hval := hget (st_heap (v_st1 v)) (v_loc v).
+
+Inductive for_trace (P : program) (var : str) (body : list stmt)
+  : ranger -> env -> state -> list visit -> for_end -> env -> state -> Prop :=
+| ft_done rg e st st1 :
+    for_next rg st = (Ok None, st1) ->
+    for_trace P var body rg e st [] FeDone e st1
+| ft_break rg e st l rg' st1 e1 st2 k e2 st3 :
+    for_next rg st = (Ok (Some (l, rg')), st1) ->
+    update_var var l e st1 = (Ok e1, st2) ->
+    exec_block k P e1 body st2 = (Ok (SigBreak, e2), st3) ->
+    for_trace P var body rg e st [Build_visit rg st l st1 e1] FeBreak e2 st3
+| ft_return rg e st l rg' st1 e1 st2 k v e2 st3 :
+    for_next rg st = (Ok (Some (l, rg')), st1) ->
+    update_var var l e st1 = (Ok e1, st2) ->
+    exec_block k P e1 body st2 = (Ok (SigReturn v, e2), st3) ->
+    for_trace P var body rg e st [Build_visit rg st l st1 e1] (FeReturn v) e2 st3
+| ft_next rg e st l rg' st1 e1 st2 k e2 st3 tr en e' st' :
+    for_next rg st = (Ok (Some (l, rg')), st1) ->
+    update_var var l e st1 = (Ok e1, st2) ->
+    exec_block k P e1 body st2 = (Ok (SigNone, e2), st3) ->
+    for_trace P var body rg' e2 st3 tr en e' st' ->
+    for_trace P var body rg e st (Build_visit rg st l st1 e1 :: tr) en e' st'.
+
+Theorem exec_for_trace n P e var rg body st sig e' st' :
+  exec_for n P e var rg body st = (Ok (sig, e'), st') ->
+  exists tr en, for_trace P var body rg e st tr en e' st' /\ sig = for_end_signal en.
+Proof.
+  revert e rg st. induction n as [|f IH]; intros e rg st H; [discriminate|].
+  rewrite exec_for_unfold in H. apply bindM_inv in H as (nx & st1 & H1 & H).
+  destruct nx as [[l rg']|]; simpl in H.
+  - apply bindM_inv in H as (e1 & st2 & H2 & H). apply bindM_inv in H as ([sg e2] & st3 & H3 & H).
+    destruct sg.
+    + apply IH in H as (tr & en & HT & ->).
+      eexists; exists en. split; [eapply ft_next; eassumption | reflexivity].
+    + inversion H; subst. eexists; exists FeBreak. split; [eapply ft_break; eassumption | reflexivity].
+    + inversion H; subst. eexists; exists (FeReturn v). split; [eapply ft_return; eassumption | reflexivity].
+  - inversion H; subst. exists [], FeDone. split; [apply ft_done; exact H1 | reflexivity].
+Qed.
+
+(* the loop variable is bound to the cell delivered by next() while the body runs *)
+Lemma frame_get_In n f : frame_get n f <> None <-> In n (names f).
+Proof.
+  induction f as [|[k l] t IH]; simpl; [split; [congruence | tauto]|].
+  destruct (str_eqb k n) eqn:E.
+  - apply str_eqb_eq in E. split; [intros _; left; exact E | discriminate].
+  - apply str_eqb_neq in E. rewrite IH. split; [tauto | intros [H|H]; [contradiction | exact H]].
+Qed.
+
+Lemma frame_get_replace n l f : frame_get n f <> None -> frame_get n (frame_replace n l f) = Some l.
+Proof.
+  induction f as [|[k l'] t IH]; simpl; [congruence|].
+  destruct (str_eqb k n) eqn:E; simpl; rewrite E; [reflexivity | exact IH].
+Qed.
+
+Lemma update_var_binds var l e st e1 st1 :
+  update_var var l e st = (Ok e1, st1) -> str_eqb var underscore = false ->
+  In var (names (hd [] e)) ->
+  env_get var e1 = Some l /\ In var (names (hd [] e1)).
+Proof.
+  unfold update_var. intros H U I. rewrite U in H.
+  destruct e as [|fr t]; [contradiction|]. simpl in I. apply frame_get_In in I.
+  simpl in H. destruct (frame_get var fr) eqn:G; [|congruence].
+  inversion H; subst. simpl. rewrite frame_get_replace by congruence.
+  split; [reflexivity|]. unfold names. fold (names (frame_replace var l fr)).
+  rewrite frame_replace_names. apply frame_get_In. congruence.
+Qed.
+
+Lemma ext_keeps_name var e e' : ext e e' -> In var (names (hd [] e)) -> In var (names (hd [] e')).
+Proof.
+  destruct e, e'; simpl; try tauto. intros [[added ->] _] H. apply in_or_app; right; exact H.
+Qed.
+
+Theorem for_trace_binds_var P var body rg e st tr en e' st' :
+  for_trace P var body rg e st tr en e' st' ->
+  str_eqb var underscore = false -> In var (names (hd [] e)) ->
+  Forall (fun v => env_get var (v_env v) = Some (v_loc v)) tr.
+Proof.
+  intros H U. induction H; intro I.
+  - constructor.
+  - constructor; [|constructor]. simpl. eapply update_var_binds; eassumption.
+  - constructor; [|constructor]. simpl. eapply update_var_binds; eassumption.
+  - destruct (update_var_binds _ _ _ _ _ _ H0 U I) as [B I1].
+    constructor; [exact B|]. apply IHfor_trace.
+    eapply ext_keeps_name; [|exact I1].
+    destruct (scope_inv_all k) as (_ & _ & Hb & _). apply Hb in H1. exact H1.
+Qed.
